@@ -2013,6 +2013,14 @@ class Rule(metaclass=LogicalType):
         arg_transformer = cls.__arg_transformers__[0]
         options = context.options
 
+        if cls.__abstract__ and not isinstance(value, (list, tuple, set, frozenset, deque)):
+            # an abstract origin (Iterable[T] ...) keeps the input object as it is,
+            # iterating it runs the object's own code
+            try:
+                value = list(value)
+            except Exception as e:
+                context.handle_error(exc.ParseError(origin_exc=e), force_raise=True)
+
         for i, item in enumerate(value):
             with context.enter(route=i) as arg_context:
                 try:
@@ -2052,14 +2060,19 @@ class Rule(metaclass=LogicalType):
         options = context.options
 
         for _key, _val in value.items():
-            with context.enter(route=f"{_key}<key>") as key_context:
+            try:
+                key_route = f"{_key}<key>"
+            except Exception:
+                # a key that cannot be rendered as text (or an int beyond the int -> str digit limit)
+                key_route = f"{exc.safe_repr(_key)}<key>"
+            with context.enter(route=key_route) as key_context:
                 try:
                     key = key_context.transformer.apply(
                         _key, key_type, func=key_transformer
                     )
                 except Exception as e:
                     error = exc.ParseError(
-                        item=f"{_key}<key>", value=_key, type=key_type, origin_exc=e
+                        item=key_route, value=_key, type=key_type, origin_exc=e
                     )
                     if options.invalid_keys == options.EXCLUDE:
                         context.collect_waring(error.formatted_message)
